@@ -227,6 +227,9 @@ func c01(r *core.Run) {
 	c01ErrorClasses(r, ec)
 	c01Boundary(r)
 	c01ErrorDiscipline(r)
+	// R5 library error mappers are exhaustive: an unmapped fixed-point library error would be re-panicked as a raw Go error,
+	// i.e. surface as an internal UnexpectedError for a user-reachable condition
+	fixSaturation(r)
 	checkRecoverTable(r, "R3.recover")
 	r.Floor("R3.recover", 30)
 }
